@@ -19,7 +19,8 @@ rds   = [rdtype, covers, ttl, [[body, aux]...], rdclass]
 obs   = per txn [ [op results...], [len(zone.nodes), [node or None per probe]],
                   [per probe: is zone.get_node(probe) the same object as before the txn (None if absent)],
                   [per probe: None if absent, else per rdataset of the node [same object as the rdataset of that
-                   (type, covers) in the node before the txn (None if there was none), is ImmutableRdataset]] ]
+                   (type, covers) in the node before the txn (None if there was none), is ImmutableRdataset]],
+                  (B-tree zones only) [per probe: node.flags or None] ]
 """
 import base64
 import itertools
@@ -351,12 +352,17 @@ def run_case(case, full=False):
                 l.append([None if old is None else int(old is r), int(isinstance(r, dns.rdataset.ImmutableRdataset))])
             rident.append(l)
         o = [res, observe(z, probes)] + ([ident, rident] if idobs else [])
+        nobs = len(o)
+        if kind == 2:
+            o.append([None if a is None else int(a.flags) for a in after])
+            nobs += 1
         if full:
-            if not idobs:
-                o += [ident, rident]
+            flags = o[nobs - 1] if kind == 2 else None
+            o = [res, o[1], ident, rident, nobs]
             o.append(full_dump(z))
             # the node objects of the previously published zone, as they are now
             o.append(int([dump_node(n) for n in old_objs] == old_dumps))
+            o.append(flags)
         out.append(o)
     return out
 
@@ -368,8 +374,15 @@ def impl(case):
     full = run_case(case, full=True)
     _full.clear()
     _full[repr(case)] = full
-    n = 4 if (len(case[0]) <= 3 or case[0][3]) else 2
-    return [t[:n] for t in full]
+    out = []
+    for t in full:
+        nobs = t[4]
+        idobs = len(case[0]) <= 3 or case[0][3]
+        o = t[:4] if idobs else t[:2]
+        if case[0][0] == 2:
+            o = o + [t[7]]
+        out.append(o)
+    return out
 
 
 # ------------------------------------------------------------------ the reference model (property text)
@@ -698,8 +711,8 @@ def oracle(ctx, kind, case, out):
                      sig="result", txn=i, op=j, op_kind=(ops[j][0] if j < len(ops) else -1))
                 bad = True
                 break
-        after = full[i][4]
-        if not full[i][5]:
+        after = full[i][5]
+        if not full[i][6]:
             fail(f"a node object of the published zone was mutated in place ({tag})", sig="aliasing", txn=i)
             bad = True
         if after != ref.dump():
@@ -1093,7 +1106,7 @@ def cases(ctx):
     for i in range(ctx.n(14, 120)):
         origin = rng.choice(ORIGINS[:4])
         g = Gen(rng, origin)
-        cut = rng.choice([[b"a"], [b"a"], [b"b", b"a"]])
+        cut = rng.choice([[b"a"], [b"a"], [b"a"], [b"b", b"a"]])
         below = [r for r in RELS if len(r) > len(cut) and r[len(r) - len(cut):] == cut]
         others = [r for r in RELS if r not in below and r != cut and r != [] and r != [b"WWW"]]
         pop = [[1, [[0, []], [2, [SOA, 0, 3600, [[1, rng.choice(SERIALS)]], 1]]]]]
@@ -1102,6 +1115,9 @@ def cases(ctx):
                 ty = rng.choice([A, A, TXT, MX, CNAME, NSEC, RRSIG])
                 cov = rng.choice([A, TXT]) if ty == RRSIG else 0
                 pop.append([1, [[0, r], [2, g.rds(ty, cov, empty=0, badclass=0)]]])
+        if below and rng.random() < 0.45:
+            # an NS owner beneath the future cut: occluded while the cut exists, exposed again when it goes
+            pop.append([1, [[0, below[0] if rng.random() < 0.7 else rng.choice(below)], [2, g.rds(NS, 0, empty=0, badclass=0)]]])
         setup = [0, 1, pop, -1]
 
         def reads():
@@ -1143,7 +1159,11 @@ def cases(ctx):
             rem = [3, [g.spell(cut)]]
         t_del = [0, rng.randrange(2), reads() + [rem] + reads(), -1]
         tail = [[2, 1, reads(), -1]]
-        hists = [[setup, t_add, t_del] + tail]
+        # a later transaction that rewrites the delegation point itself and a node beneath it
+        t_touch = [0, 1, [[1, [g.spell(cut), [2, g.rds(rng.choice([A, TXT]), 0, empty=0, badclass=0)]]]]
+                         + ([[1, [g.spell(rng.choice(below)), [2, g.rds(TXT, 0, empty=0, badclass=0)]]]] if below else [])
+                         + reads(), -1]
+        hists = [[setup, t_add] + ([t_touch] if i % 2 == 0 else []) + [t_del] + tail]
         if rng.random() < 0.5:
             hists.append([setup, [0, 1, t_add[2], len(t_add[2])], t_add, t_del])  # the NS transaction aborted first
         for hist in hists:
